@@ -104,6 +104,7 @@ static int pick_next(int must_leave, int critical) {
 
 // ---- mode `lock`: the log format of ocaml/mode_tfree.ml ------------------------------------------
 static int pg_owner[MAXPG];              // owning virtual thread of a registered page (-1 = slot not in use)
+static uint64_t pg_sig[MAXPG];           // signature of the last printed snapshot
 static int heap_printed[64];
 static size_t blk_idx(mi_page_t* pg, void* b) { return (size_t)((uint8_t*)b - pg->page_start) / pg->block_size; }
 static int page_known(mi_page_t* pg) { for (int i = 0; i < npages; i++) if (pages[i] == pg) return i; return -1; }
@@ -144,12 +145,17 @@ static void lk_sync(void) {
         int k = page_id(pg); if (k < 0) continue;
         pg_owner[k] = cur; seen[k] = 1;
         uintptr_t tf = pg->xthread_free;
+        // print the snapshot only when the page differs from its previous snapshot
+        uint64_t sig = (uint64_t)pg->reserved * 31 + pg->capacity; sig = sig * 1000003 + pg->used; sig = sig * 1000003 + (uint64_t)mi_page_is_in_full(pg);
+        sig = sig * 1000003 + (uint64_t)tf; sig = sig * 1000003 + (uint64_t)(uintptr_t)pg->free; sig = sig * 1000003 + (uint64_t)(uintptr_t)pg->local_free; sig = sig * 1000003 + (uint64_t)hid + 1;
+        if (pg_sig[k] == sig) continue;
+        pg_sig[k] = sig;
         printf("G %d %d %d %u %u %u %d %d :", k, hid, cur, (unsigned)pg->reserved, (unsigned)pg->capacity, (unsigned)pg->used, (int)mi_page_is_in_full(pg), (int)(tf & 3));
         lk_list(pg, pg->free); printf(" :"); lk_list(pg, pg->local_free); printf(" :"); lk_list(pg, (mi_block_t*)(tf & ~(uintptr_t)3)); printf("\n");
       }
     }
   }
-  for (int i = 0; i < npages; i++) if (pages[i] != NULL && pg_owner[i] == cur && !seen[i]) { printf("G %d dead\n", i); pages[i] = NULL; pg_owner[i] = -1; }
+  for (int i = 0; i < npages; i++) if (pages[i] != NULL && pg_owner[i] == cur && !seen[i]) { printf("G %d dead\n", i); pages[i] = NULL; pg_owner[i] = -1; pg_sig[i] = 0; }
   sched_on = so;
 }
 static void lk_call(const char* what, void* p) {            // "A <tid> <call> [<page>.<idx>]"
@@ -199,8 +205,7 @@ static void do_alloc(int s) {
   int useheap = (mode == 2 && extra_heap[cur] != NULL && prng_below(&GP, 3) != 0);
   lk_call("malloc", NULL);
   uint8_t* p = (uint8_t*)(useheap ? mi_heap_malloc(extra_heap[cur], size) : mi_malloc(size));
-  lk_ret();
-  if (lockfmt && do_log && p != NULL) { mi_page_t* pg = _mi_ptr_page(p); printf("B %d %d.%zu\n", cur, page_known(pg), blk_idx(pg, p)); }
+  if (lockfmt && do_log) { printf("R %d\n", cur); if (p != NULL) { mi_page_t* pg = _mi_ptr_page(p); int so = sched_on; sched_on = 0; int k = page_id(pg); sched_on = so; printf("B %d %d.%zu\n", cur, k, blk_idx(pg, p)); } lk_sync(); }
   if (p == NULL) { viol("fail", "malloc(%zu) returned NULL", size); return; }
   // nobody else may hold this memory
   for (int i = 0; i < NSLOTX; i++) if (slots[i].p != NULL) {
